@@ -1,6 +1,6 @@
 (** * C02 — a self-named parameter resolves outward; the cursor decides which fixture.
     Statements only. *)
-From PLS Require Import Check.C02 Proofs.Basics Proofs.Cascade.
+From PLS Require Import Check.C02 Check.C07 Proofs.Basics Proofs.Cascade Proofs.WarmCold Proofs.ImportsComplete.
 
 (** navigation from the same-named parameter of [x] never lands on [x] itself —
     full strength: every state, every file, every chain length *)
@@ -22,6 +22,20 @@ Theorem C02_param_goes_outward_partial :
     allowed_ex dk roots s (Some x) F n (closest_excluding dk roots s F n x) = true.
 Proof. intros dk roots s n x F. exact (closest_with_allowed dk roots s n (Some x) F). Qed.
 Print Assumptions C02_param_goes_outward_partial.
+
+(** for every state reached by analyses, closes and queries the import-closure hypothesis is
+    a theorem (C01_imports_complete_in_every_reached_state), leaving only the exclusion of
+    the listed finding *)
+Theorem C02_param_goes_outward_in_every_reached_state :
+  forall dk roots s n x F,
+    reached dk roots s -> F <> [] ->
+    K_import_provenance dk roots s (Some x) F n = false ->
+    allowed_ex dk roots s (Some x) F n (closest_excluding dk roots s F n x) = true.
+Proof.
+  intros dk roots s n x F R HF HK. apply (closest_with_allowed dk roots s n (Some x) F HF); [|exact HK].
+  intros dir _. now apply imports_complete_reached.
+Qed.
+Print Assumptions C02_param_goes_outward_in_every_reached_state.
 
 (** the usage-level form: when the line of a recorded usage lies in the span of a
     fixture of the same name, resolution of that usage excludes exactly that fixture *)
